@@ -105,7 +105,9 @@ void BinaryFileReader::read_topo_chunk(Decoder &reader)
         return;
     }
 
-    if (!is_valid(header.handle_encoding)) {
+    if (!is_valid(header.handle_encoding) || header.handle_encoding == IntEncoding::None) {
+        // None is only meaningful for the valence encoding (fixed valence):
+        // handles without an encoding cannot be decoded.
         state_ = ReadState::ErrorInvalidEncoding;
         error_msg_ = "TOPO chunk: invalid handle encoding";
         return;
